@@ -45,6 +45,7 @@ impl Prop for C05Prop {
             keyings: 1,
             boundary_per_mille: 0,
             huge_one_in: 1500,
+            hub_one_in: 0,
         }
         .gen("C05", seed, idx)
         .tap(|case| {
